@@ -623,4 +623,32 @@ theorem run_config_wf_of_uniformB {ops : List Op} (hv : Valid {} ops) (hub : uni
   have hU := uniformT_of_uniform hb (uniformB_sound hub)
   exact ⟨run_config_wf hv hU hc _ _ _ _ _, run_config_wfShape hv hU hc _ _ _ _ _⟩
 
+/-! ### `successors` is complete: every data connection made by `connect` is one `lazy_stepping` waits for -/
+
+theorem run_config_succ_complete_of_built {w : World} (h : BuiltOk w) {orc : List Nat} {out : List SimCfg}
+    (hc : cacheTriggeringAncestors w.sims orc = .ok out) (until_ maxLoop : Nat) (lazy_ useCache strict : Bool) :
+    (∀ p, p < out.length → ∀ e ∈ ((runCfg out until_ maxLoop lazy_ useCache strict).sim p).push,
+      e.2.1 < out.length ∧ ∃ d, (e.2.1, d) ∈ ((runCfg out until_ maxLoop lazy_ useCache strict).sim p).succs) ∧
+    (∀ q, q < out.length → ∀ e ∈ ((runCfg out until_ maxLoop lazy_ useCache strict).sim q).pulled,
+      e.1 < out.length ∧ ∃ d, (q, d) ∈ ((runCfg out until_ maxLoop lazy_ useCache strict).sim e.1).succs) := by
+  obtain ⟨st, _, hout⟩ := cta_out hc
+  have hlen : out.length = w.sims.length := by rw [hout]; simp
+  have hget : ∀ p, p < w.sims.length → out.getD p {} = { w.sim p with trigAnc := st.row p } := by
+    intro p hp; rw [hout, getD_out, if_pos hp]; rfl
+  constructor
+  · intro p hp e he
+    have hp' : p < w.sims.length := hlen ▸ hp
+    change e ∈ (out.getD p {}).push at he
+    show e.2.1 < out.length ∧ ∃ d, (e.2.1, d) ∈ (out.getD p {}).succs
+    rw [hget p hp'] at he ⊢
+    exact ⟨hlen ▸ (h.pushOk p hp' e he).1, h.succPush p hp' e he⟩
+  · intro q hq e he
+    have hq' : q < w.sims.length := hlen ▸ hq
+    change e ∈ (out.getD q {}).pulled at he
+    show e.1 < out.length ∧ ∃ d, (q, d) ∈ (out.getD e.1 {}).succs
+    rw [hget q hq'] at he
+    have h1 := (h.pullOk q hq' e he).1
+    rw [hget e.1 h1]
+    exact ⟨hlen ▸ h1, h.succPull q hq' e he⟩
+
 end Mosaik.Build
